@@ -225,14 +225,12 @@ example (tree : Tree) (nd : TNode) (h0 : tree.node? 0 = some nd) :
       split at hl
       · rename_i hx
         cases hl
-        refine ⟨by decide, fun _ => ?_⟩
-        simp [m, QMatch.nodes, List.lookup, hx]
+        decide
       · rename_i hx
         split at hl
         · rename_i hf
           cases hl
-          refine ⟨by decide, fun _ => ?_⟩
-          simp [m, QMatch.nodes, List.lookup, hx, hf]
+          decide
         · cases hl
     · intro n rest hmn
       simp [m, QMatch.nodes, List.lookup, fullMatchName] at hmn
@@ -252,8 +250,9 @@ theorem C05_parsed_shorthands_unresolved (o : POracle) (text : String) (f : File
 
 /-- **Load, then execute strictly: no panic.** For EVERY text: if loading it (parser, then checker) yields a file, then
 executing that file strictly never reaches a panic site — for every tree, oracle, globals, cancellation flag, fuel and
-initial graph — under tree-sitter's contracts only (source slices, quantifiers of captures, the full-match node is a
-node of the tree) and the caller's (graph-node globals belong to the initial graph). -/
+initial graph — under tree-sitter's contracts only (source slices, no capture with quantifier `Zero`, the full-match node is a
+node of the tree; NOT that a capture reported as occurring once has a node — tree-sitter breaks that for a fourth capture
+on one pattern step, and since the repair of `Capture::evaluate` that case is an error, not a panic) and the caller's (graph-node globals belong to the initial graph). -/
 theorem C05_load_then_strict_never_panics (o : POracle) (nullable : String → Option Bool) (text : String) (file : File)
     (hload : Loader.load o nullable text = .loaded file)
     (tree : Tree) (oracle : Oracle) (globals : GlobalsM) (la va ma : Option String)
